@@ -110,10 +110,10 @@ func (t *tamperApi) QueryConsistency(s, e uint64) (*balloon.IncrementalProof, er
 }
 
 type memStore struct {
-	mu      sync.Mutex
-	snaps   map[uint64]*protocol.SignedSnapshot
-	tamper  string
-	put     []*protocol.BatchSnapshots
+	mu     sync.Mutex
+	snaps  map[uint64]*protocol.SignedSnapshot
+	tamper string
+	put    []*protocol.BatchSnapshots
 }
 
 func (m *memStore) PutBatch(b *protocol.BatchSnapshots) error {
@@ -122,10 +122,10 @@ func (m *memStore) PutBatch(b *protocol.BatchSnapshots) error {
 	m.put = append(m.put, b)
 	return nil
 }
-func (m *memStore) PutSnapshot(uint64, *protocol.SignedSnapshot) error        { return nil }
+func (m *memStore) PutSnapshot(uint64, *protocol.SignedSnapshot) error      { return nil }
 func (m *memStore) GetRange(s, e uint64) ([]protocol.SignedSnapshot, error) { return nil, nil }
-func (m *memStore) DeleteRange(s, e uint64) error                            { return nil }
-func (m *memStore) Count() (uint64, error)                                   { return uint64(len(m.snaps)), nil }
+func (m *memStore) DeleteRange(s, e uint64) error                           { return nil }
+func (m *memStore) Count() (uint64, error)                                  { return uint64(len(m.snaps)), nil }
 func (m *memStore) GetSnapshot(v uint64) (*protocol.SignedSnapshot, error) {
 	m.mu.Lock()
 	defer m.mu.Unlock()
@@ -146,10 +146,15 @@ type memNotifier struct {
 	alerts []string
 }
 
-func (n *memNotifier) Alert(msg string) error { n.mu.Lock(); n.alerts = append(n.alerts, msg); n.mu.Unlock(); return nil }
-func (n *memNotifier) Start()                 {}
-func (n *memNotifier) Stop()                  {}
-func (n *memNotifier) count() int             { n.mu.Lock(); defer n.mu.Unlock(); return len(n.alerts) }
+func (n *memNotifier) Alert(msg string) error {
+	n.mu.Lock()
+	n.alerts = append(n.alerts, msg)
+	n.mu.Unlock()
+	return nil
+}
+func (n *memNotifier) Start()     {}
+func (n *memNotifier) Stop()      {}
+func (n *memNotifier) count() int { n.mu.Lock(); defer n.mu.Unlock(); return len(n.alerts) }
 
 type syncTM struct {
 	mu   sync.Mutex
@@ -157,8 +162,8 @@ type syncTM struct {
 	n    int
 }
 
-func (t *syncTM) Start() {}
-func (t *syncTM) Stop()  {}
+func (t *syncTM) Start()   {}
+func (t *syncTM) Stop()    {}
 func (t *syncTM) Len() int { return 0 }
 func (t *syncTM) Add(task gossip.Task) error {
 	err := task()
@@ -322,11 +327,17 @@ func agentsDriver(args []string) error {
 				lo, hi := pick()
 				deliver("none", lo, hi, nil)
 				lo, hi = pick()
-				deliver("gossip_history", lo, hi, func(b *protocol.BatchSnapshots) { b.Snapshots[0].Snapshot.HistoryDigest = flip(b.Snapshots[0].Snapshot.HistoryDigest) })
+				deliver("gossip_history", lo, hi, func(b *protocol.BatchSnapshots) {
+					b.Snapshots[0].Snapshot.HistoryDigest = flip(b.Snapshots[0].Snapshot.HistoryDigest)
+				})
 				lo, hi = pick()
-				deliver("gossip_hyper", lo, hi, func(b *protocol.BatchSnapshots) { b.Snapshots[0].Snapshot.HyperDigest = flip(b.Snapshots[0].Snapshot.HyperDigest) })
+				deliver("gossip_hyper", lo, hi, func(b *protocol.BatchSnapshots) {
+					b.Snapshots[0].Snapshot.HyperDigest = flip(b.Snapshots[0].Snapshot.HyperDigest)
+				})
 				lo, hi = pick()
-				deliver("gossip_event", lo, hi, func(b *protocol.BatchSnapshots) { b.Snapshots[0].Snapshot.EventDigest = flip(b.Snapshots[0].Snapshot.EventDigest) })
+				deliver("gossip_event", lo, hi, func(b *protocol.BatchSnapshots) {
+					b.Snapshots[0].Snapshot.EventDigest = flip(b.Snapshots[0].Snapshot.EventDigest)
+				})
 				lo, hi = pick()
 				deliver("gossip_version_up", lo, hi, func(b *protocol.BatchSnapshots) { b.Snapshots[0].Snapshot.Version++ })
 				lo, hi = pick()
@@ -365,14 +376,18 @@ func agentsDriver(args []string) error {
 				deliver("none", lo, hi, nil)
 				deliver("none", lo, lo, func(b *protocol.BatchSnapshots) { b.Snapshots[0].Signature = []byte(fmt.Sprintf("single-%d", r)) })
 				lo, hi = pick()
-				deliver("gossip_first_history", lo, hi, func(b *protocol.BatchSnapshots) { b.Snapshots[0].Snapshot.HistoryDigest = flip(b.Snapshots[0].Snapshot.HistoryDigest) })
+				deliver("gossip_first_history", lo, hi, func(b *protocol.BatchSnapshots) {
+					b.Snapshots[0].Snapshot.HistoryDigest = flip(b.Snapshots[0].Snapshot.HistoryDigest)
+				})
 				lo, hi = pick()
 				deliver("gossip_last_history", lo, hi, func(b *protocol.BatchSnapshots) {
 					l := b.Snapshots[len(b.Snapshots)-1].Snapshot
 					l.HistoryDigest = flip(l.HistoryDigest)
 				})
 				lo, hi = pick()
-				deliver("gossip_hyper", lo, hi, func(b *protocol.BatchSnapshots) { b.Snapshots[0].Snapshot.HyperDigest = flip(b.Snapshots[0].Snapshot.HyperDigest) })
+				deliver("gossip_hyper", lo, hi, func(b *protocol.BatchSnapshots) {
+					b.Snapshots[0].Snapshot.HyperDigest = flip(b.Snapshots[0].Snapshot.HyperDigest)
+				})
 				lo, hi = pick()
 				if hi+1 < nEvents {
 					deliver("gossip_last_version_up", lo, hi, func(b *protocol.BatchSnapshots) { b.Snapshots[len(b.Snapshots)-1].Snapshot.Version++ })
